@@ -12,6 +12,9 @@ structure St where
   sess : Session
   scheme : String
   dead : Bool := false
+  /-- `interleave_blocks = 0`: the FDT (TOI 0, never empty) is sent first with the same window, its encoder reaches the
+      `debug_assert` before any object packet: the first `Sender::read` panics whatever the object is -/
+  fdtPanics : Bool := false
 
 def lcgNext (x : Nat) : Nat := (x * 6364136223846793005 + 1442695040888963407) % 2^64
 
@@ -80,14 +83,30 @@ def opNew (legacy : Bool) (a : List String) : Option St × String :=
         match te? with
         | none => (none, "bad-op")
         | some te =>
-        let isBuf := src == "buf"
+        -- source spec <base>[@pre<N>|@post<N>]: the stream's position when the first transfer starts (the model's
+        -- `Enc.new` rewinds, `Source.len` ignores the position: nothing may depend on N)
+        let (src, pos0?) : String × Option Nat :=
+          match src.splitOn "@" with
+          | [b] => (b, some 0)
+          | [b, sfx] =>
+            if sfx.startsWith "pre" then (b, (sfx.drop 3).toString.toNat?)
+            else if sfx.startsWith "post" then (b, (sfx.drop 4).toString.toNat?)
+            else (b, none)
+          | _ => (src, none)
+        match pos0? with
+        | none => (none, "bad-op")
+        | some pos0 =>
+        -- `create_from_file(cache_in_ram = true)` reads the file into a buffer, `false` hands the `File` over as a stream
+        let isBuf := src == "buf" || src == "ffile-ram"
+        if isBuf && pos0 != 0 then (none, "bad-op") else
         -- the source
         let source? : Option Source :=
           if isBuf then some (.buffer te)
-          else if src == "cur" || src == "file" || src == "bufrd" then some (.stream { bytes := obj, pos := 0, sched := [] })
+          else if src == "cur" || src == "file" || src == "bufrd" || src == "ffile-stream" then
+            some (.stream { bytes := obj, pos := pos0, sched := [] })
           else if src.startsWith "chk:" then
             match parseSched (src.drop 4).toString obj.length e (maxtc + 4) with
-            | some sc => some (.stream { bytes := obj, pos := 0, sched := sc })
+            | some sc => some (.stream { bytes := obj, pos := pos0, sched := sc })
             | none => none
           else none
         match source? with
@@ -104,7 +123,8 @@ def opNew (legacy : Bool) (a : List String) : Option St × String :=
             | .error _ => 0
           if !legacy && (scheme == "rs28" || scheme == "rs28us") && (p = 0 ∨ aLarge + p > 256) then (none, "ERR add") else
           let P : Params := { codec := codec, e := e, b := b, p := p, window := win, len := l, legacy := legacy }
-          (some { sess := { P := P, src := source, maxtc := maxtc, carousel := car == 1, allowStop := allow == 1 }, scheme := scheme },
+          (some { sess := { P := P, src := source, maxtc := maxtc, carousel := car == 1, allowStop := allow == 1 }, scheme := scheme,
+                  fdtPanics := win == 0 },
            s!"ok {l}")
     | _, _ => (none, "bad-op")
   | _ => (none, "bad-op")
@@ -135,6 +155,7 @@ def step (st : Option St) (args : List String) : Option St × String :=
     | none => (none, "no-session")
     | some s =>
       if s.dead then (st, "dead") else
+      if s.fdtPanics then (some { s with dead := true }, "PANIC") else
       match s.sess.read with
       | (.pkt p, x') => (some { s with sess := x' }, showPkt s.scheme p)
       | (.none, x') => (some { s with sess := x' }, "none")
@@ -145,6 +166,7 @@ def step (st : Option St) (args : List String) : Option St × String :=
     | none => (none, "no-session")
     | some s =>
       if s.dead then (st, "dead") else
+      if s.fdtPanics then (some { s with dead := true }, "PANIC") else
       let (dead, x', acc) := readAll s.scheme 200001 s.sess []
       (some { s with sess := x', dead := dead }, joinSp acc.reverse)
   | ["remove"] =>
